@@ -131,9 +131,11 @@ def build(s):
     if t == "py":
         return s["v"]
     if t == "arr":
-        dt = {"f": float, "i": int, "b": bool}[s["dtype"]]
+        dt = {"f": float, "i": int, "b": bool, "c": complex}[s["dtype"]]
         shape = tuple(s["shape"])
         base = np.array(s["data"], dtype=dt).reshape(shape, order="F")
+        if dt is complex:
+            base = base * (1 + 2j)
         lay = s["layout"]
         if lay == "F":
             return np.asfortranarray(base).copy(order="F")
@@ -165,6 +167,12 @@ def build(s):
         return ttb.ttensor(core, fac)
     if t == "sumtensor":
         return ttb.sumtensor([build(p) for p in s["parts"]])
+    if t == "tenmat_raw":  # the constructor itself, any dtype / layout of the data
+        return ttb.tenmat(build(s["data"]), np.array(s["rdims"], dtype=int), np.array(s["cdims"], dtype=int),
+                          tuple(s["tshape"]))
+    if t == "coo":
+        d = build(s["dense"])
+        return sps.coo_matrix(d)
     if t == "tenmat":
         if "cdims" in s:
             return build(s["tensor"]).to_tenmat(np.array(s["rdims"], dtype=int), np.array(s["cdims"], dtype=int))
@@ -912,19 +920,28 @@ def ktensor_cases(rng, tier):
             for m in ("copy", "__pos__"):
                 out.append(case(C, m, lab, X, [], {}, M(C, "copy", n=n)))
             out.append(case(C, "__deepcopy__", lab, X, [py({})], {}, M(C, "copy", n=n)))
-            for m in ("double", "norm", "__neg__", "__repr__", "__str__", "tovec", "issymmetric"):
-                out.append(case(C, m, lab, X))
+            for m in ("norm", "__repr__", "__str__", "issymmetric"):
+                out.append(case(C, m, lab, X, [], {}, RO))
+            out.append(case(C, "double", lab, X, [], {}, M(C, "double", n=n, shape=shape)))
+            out.append(case(C, "__neg__", lab, X, [], {}, M(C, "scale", n=n)))
+            out.append(case(C, "tovec", lab, X, [], {}, M(C, "tovec", n=n)))
+            out.append(case(C, "tovec", f"{lab}/weights", X, [py(True)], {}, M(C, "tovec", n=n)))
             for m in ("full", "to_tensor"):
                 out.append(case(C, m, lab, X, [], {}, M(C, "full", shape=shape)))
             for m in ("ndims", "ncomponents", "order", "shape"):
                 out.append(case(C, m, lab, X, kind="prop"))
-            out.append(case(C, "tovec", f"{lab}/noweights", X, [py(False)]))
+            out.append(case(C, "tovec", f"{lab}/noweights", X, [py(False)], {}, M(C, "tovec", n=n, flag="now")))
             out.append(case(C, "issymmetric", f"{lab}/diffs", X, [py(True)]))
             out.append(case(C, "tolist", lab, X, [], {}, M(C, "tolist", n=n, flag="unit" if unit else "")))
-            out.append(case(C, "tolist", f"{lab}/mode", X, [py(0)], {}, M(C, "tolist", n=n, flag="")))
-            out.append(case(C, "extract", f"{lab}/none", X, [], {}, M(C, "copy", n=n)))
-            out.append(case(C, "extract", f"{lab}/int", X, [py(1)]))
-            out.append(case(C, "extract", f"{lab}/arr", X, [iarr([1, 0])]))
+            for md in sorted({0, n - 1}):
+                out.append(case(C, "tolist", f"{lab}/mode{md}", X, [py(md)], {}, M(C, "tolist_mode", n=n, k=md)))
+            EX = M(C, "extract", n=n)
+            out.append(case(C, "extract", f"{lab}/none", X, [], {}, M(C, "extract", n=n, flag="none")))
+            out.append(case(C, "extract", f"{lab}/int", X, [py(1)], {}, EX))
+            out.append(case(C, "extract", f"{lab}/arr", X, [iarr([1, 0])], {}, EX))
+            out.append(case(C, "extract", f"{lab}/all-in-order", X, [iarr([0, 1])], {}, EX))
+            out.append(case(C, "extract", f"{lab}/list", X, [py([0])], {}, EX))
+            out.append(case(C, "extract", f"{lab}/tuple", X, [py((1,))], {}, EX))
             for p in (perms_for(rng, shape, tier)[:3] if tier == "quick" else perms_for(rng, shape, tier)):
                 out.append(case(C, "permute", f"{lab}/{'id' if p == sorted(p) else 'perm'}", X, [iarr(p)], {},
                                 M(C, "permute", n=n, perm=p)))
@@ -939,8 +956,9 @@ def ktensor_cases(rng, tier):
                                 M(C, "ttv", n=n, dims=list(range(1, n)))))
                 out.append(case(C, "ttv", f"{lab}/exclude", X, [lst([vec(rng, d) for d in shape[:-1]])],
                                 {"exclude_dims": py(n - 1)}, M(C, "ttv", n=n, dims=[n - 1])))
-            out.append(case(C, "__mul__", f"{lab}/scalar", X, [py(2.0)]))
-            out.append(case(C, "__rmul__", f"{lab}/scalar", X, [py(2.0)]))
+            out.append(case(C, "__mul__", f"{lab}/scalar", X, [py(2.0)], {}, M(C, "scale", n=n)))
+            out.append(case(C, "__rmul__", f"{lab}/scalar", X, [py(2.0)], {}, M(C, "scale", n=n)))
+            out.append(case(C, "__mul__", f"{lab}/one", X, [py(1)], {}, M(C, "scale", n=n)))
             # in place -----------------------------------------------------------------------------
             nz = lambda flag, **kw: M(C, "normalize", n=n, flag=flag, **kw)  # noqa: E731
             out.append(case(C, "normalize", lab, X, [], {}, nz(""), "inplace"))
@@ -968,41 +986,61 @@ def ktensor_cases(rng, tier):
                                 M(C, "viz", n=n, flag="plain"), "inplace"))
         X = Kspec(rng, shape, 2)
         Y = Kspec(rng, shape, 2)
-        for m in ("__add__", "__sub__", "isequal", "innerprod"):
-            out.append(case(C, m, "ktensor", X, [Y]))
+        for m in ("__add__", "__sub__"):
+            out.append(case(C, m, "ktensor", X, [Y], {}, M(C, "addsub", n=n)))
+        for m in ("isequal", "innerprod"):
+            out.append(case(C, m, "ktensor", X, [Y], {}, RO))
         out.append(case(C, "score", "", X, [Y]))
         out.append(case(C, "score", "nopenalty", X, [Y], {"weight_penalty": py(False)}))
         out.append(case(C, "__mul__", "tensor", X, [Tspec(rng, shape)]))
         out.append(case(C, "__mul__", "sptensor", X, [Sspec(rng, shape)]))
         out.append(case(C, "__add__", "sumtensor", X, [{"t": "sumtensor", "parts": [Tspec(rng, shape)]}]))
-        out.append(case(C, "innerprod", "tensor", X, [Tspec(rng, shape)]))
-        out.append(case(C, "innerprod", "sptensor", X, [Sspec(rng, shape)]))
-        out.append(case(C, "mask", "tensor", X, [{"t": "tensor", "shape": shape, "data": [i % 2 for i in range(gen.numel(shape))]}]))
-        out.append(case(C, "mask", "sptensor", X, [Sspec(rng, shape)]))
+        out.append(case(C, "innerprod", "tensor", X, [Tspec(rng, shape)], {}, RO))
+        out.append(case(C, "innerprod", "sptensor", X, [Sspec(rng, shape)], {}, RO))
+        out.append(case(C, "mask", "tensor", X, [{"t": "tensor", "shape": shape, "data": [i % 2 for i in range(gen.numel(shape))]}],
+                        {}, M(C, "mask", n=n, flag="tensor")))
+        out.append(case(C, "mask", "tensor-zero", X, [{"t": "tensor", "shape": shape, "data": [0] * gen.numel(shape)}],
+                        {}, M(C, "mask", n=n, flag="tensor")))
+        out.append(case(C, "mask", "sptensor", X, [Sspec(rng, shape)], {}, M(C, "mask", n=n)))
+        out.append(case(C, "mask", "sptensor-empty", X, [Sspec(rng, shape, "empty")], {}, M(C, "mask", n=n)))
         if n >= 2:
-            out.append(case(C, "innerprod", "ttensor", X, [TTspec(rng, shape)]))
+            out.append(case(C, "innerprod", "ttensor", X, [TTspec(rng, shape)], {}, RO))
             U = [mat(rng, d, 3) for d in shape]
-            out.append(case(C, "mttkrp", "list", X, [lst(U), py(0)]))
-            out.append(case(C, "mttkrp", "ktensor", X, [Y, py(n - 1)]))
+            for k in range(n):
+                out.append(case(C, "mttkrp", f"list/{k}", X, [lst(U), py(k)], {}, M(C, "mttkrp")))
+            out.append(case(C, "mttkrp", "list-C", X, [lst([mat(rng, d, 3, "C") for d in shape]), py(0)], {}, M(C, "mttkrp")))
+            out.append(case(C, "mttkrp", "ktensor", X, [Y, py(n - 1)], {}, M(C, "mttkrp")))
             out.append(case(C, "nvecs", "eigsh", X, [py(0), py(1)]))
             out.append(case(C, "nvecs", "dense", X, [py(n - 1), py(shape[n - 1])]))
             for rd, cd in mode_splits(rng, shape, tier):
                 for copy in (True, False):
                     out.append(case(C, "to_tenmat", f"{'keeps-layout' if keeps_layout(shape, rd + cd) else 'relayout'}/copy={copy}",
-                                    X, [], {"rdims": iarr(rd), "cdims": iarr(cd), "copy": py(copy)}))
+                                    X, [], {"rdims": iarr(rd), "cdims": iarr(cd), "copy": py(copy)},
+                                    M(C, "to_tenmat", n=n, perm=rd + cd, dims=[shape[k] for k in rd + cd],
+                                      shape=[gen.numel([shape[k] for k in rd]), gen.numel([shape[k] for k in cd])], copy=copy)))
     X = Kspec(rng, [3, 3, 3], 2)
     out.append(case(C, "symmetrize", "", X))
     out.append(case(C, "issymmetric", "cubic", X))
     return out
 
 
+def TTsp(rng, shape, cshape):
+    """Tucker tensor with a sparse core that has an entry in every cell."""
+    t = TTspec(rng, shape, cshape)
+    t["core"] = Sspec(rng, cshape, "all")
+    return t
+
+
 def ttensor_cases(rng, tier):
+    """Tucker tensors with a dense and with a sparse core; singleton modes in tensor and core; every
+    mode order for permute, every mode subset for ttv / ttm, samples per mode for reconstruct."""
     out = []
     C = "ttensor"
-    for shape, cs in (([3, 4, 2], [2, 2, 2]), ([3, 2], [2, 1]), ([3, 1, 2], [2, 1, 2])):
+    configs = [([3, 4, 2], [2, 2, 2]), ([3, 2], [2, 1]), ([3, 1, 2], [2, 1, 2]), ([2, 3], [2, 3])]
+    if tier == "thorough":
+        configs += [([2, 2, 1, 3], [2, 1, 1, 2]), ([4], [2]), ([1, 3], [1, 2])]
+    for shape, cs in configs:
         n = len(shape)
-        names = ["core.data"] + [f"f{i}" for i in range(n)]
-        CA = M("any", "copy_all", m=n + 1, flag=",".join(names))
         core = Tspec(rng, cs)
         for lay in ("F", "C"):
             fms = [mat(rng, d, c, lay) for d, c in zip(shape, cs)]
@@ -1014,97 +1052,190 @@ def ttensor_cases(rng, tier):
                         {"copy": py(False)}, M(C, "__init__", n=n, k=2, copy=False), "ctor"))
         out.append(case(C, "__init__", "sparse-core/copy=True", None, [score, lst([mat(rng, d, c) for d, c in zip(shape, cs)])],
                         {"copy": py(True)}, M(C, "__init__", n=n, k=2, copy=True), "ctor"))
-        X = TTspec(rng, shape, cs)
-        for m in ("copy", "__pos__"):
-            out.append(case(C, m, "", X, [], {}, CA))
-        out.append(case(C, "__deepcopy__", "", X, [py({})], {}, CA))
-        for m in ("full", "to_tensor", "double", "norm", "__neg__", "__repr__", "__str__", "reconstruct"):
-            out.append(case(C, m, "", X))
-        for m in ("ndims", "order", "shape"):
-            out.append(case(C, m, "", X, kind="prop"))
-        out.append(case(C, "isequal", "", X, [TTspec(rng, shape, cs)]))
-        for o, lab in ((TTspec(rng, shape, cs), "ttensor"), (Tspec(rng, shape), "tensor"), (Sspec(rng, shape), "sptensor"),
-                       (Kspec(rng, shape), "ktensor")):
-            out.append(case(C, "innerprod", lab, X, [o]))
-        out.append(case(C, "__mul__", "scalar", X, [py(2.0)]))
-        out.append(case(C, "__rmul__", "scalar", X, [py(2.0)]))
-        for p in (perms_for(rng, shape, tier)[:3] if tier == "quick" else perms_for(rng, shape, tier)):
-            out.append(case(C, "permute", "id" if p == sorted(p) else "perm", X, [iarr(p)]))
-        out.append(case(C, "ttv", "one", X, [vec(rng, shape[0]), py(0)]))
-        out.append(case(C, "ttv", "all", X, [lst([vec(rng, d) for d in shape])]))
-        out.append(case(C, "ttv", "exclude", X, [lst([vec(rng, d) for d in shape[1:]])], {"exclude_dims": py(0)}))
-        for ds in mode_subsets(rng, n, tier):
-            out.append(case(C, "ttv", f"dims{len(ds)}", X, [lst([vec(rng, shape[k]) for k in ds]), iarr(ds)]))
-        for k in range(n):
-            out.append(case(C, "ttm", f"mode{k}", X, [mat(rng, 2, shape[k]), py(k)]))
-            out.append(case(C, "mttkrp", f"list/{k}", X, [lst([mat(rng, d, 2) for d in shape]), py(k)]))
-        out.append(case(C, "ttm", "list", X, [lst([mat(rng, 2, d) for d in shape])]))
-        out.append(case(C, "ttm", "transpose", X, [mat(rng, shape[1], 2)], {"dims": py(1), "transpose": py(True)}))
-        out.append(case(C, "ttm", "exclude", X, [lst([mat(rng, 2, d) for d in shape[1:]])], {"exclude_dims": py(0)}))
-        out.append(case(C, "mttkrp", "list", X, [lst([mat(rng, d, 2) for d in shape]), py(0)]))
-        out.append(case(C, "mttkrp", "ktensor", X, [Kspec(rng, shape), py(1)]))
-        out.append(case(C, "nvecs", "", X, [py(0), py(1)]))
-        out.append(case(C, "nvecs", "dense", X, [py(n - 1), py(shape[n - 1])]))
-        out.append(case(C, "reconstruct", "samples", X, [iarr([0, 1]), py(0)]))
-        out.append(case(C, "reconstruct", "matrix", X, [lst([mat(rng, 2, shape[0])]), py([0])]))
+        for ck, X in ((1, TTspec(rng, shape, cs)), (2, TTsp(rng, shape, cs))):
+            cl = "dense" if ck == 1 else "sparse"
+            b0 = ck + n  # first operand register after the receiver's arrays
+            P = lambda meth, **kw: M(C, meth, k=ck, n=n, **kw)  # noqa: E731
+            for m in ("copy", "__pos__"):
+                out.append(case(C, m, cl, X, [], {}, P("copy")))
+            out.append(case(C, "__deepcopy__", cl, X, [py({})], {}, P("copy")))
+            for m in ("full", "to_tensor", "reconstruct"):
+                out.append(case(C, m, cl, X, [], {}, P("full")))
+            out.append(case(C, "double", cl, X, [], {}, P("double")))
+            out.append(case(C, "__neg__", cl, X, [], {}, P("scale", flag="neg")))
+            out.append(case(C, "__mul__", f"{cl}/scalar", X, [py(2.0)], {}, P("scale", flag="mul")))
+            out.append(case(C, "__rmul__", f"{cl}/scalar", X, [py(2.0)], {}, P("scale", flag="mul")))
+            for m in ("norm", "__repr__", "__str__"):
+                out.append(case(C, m, cl, X, [], {}, RO))
+            for m in ("ndims", "order", "shape"):
+                out.append(case(C, m, cl, X, kind="prop"))
+            out.append(case(C, "isequal", cl, X, [TTspec(rng, shape, cs)], {}, RO))
+            out.append(case(C, "isequal", f"{cl}/self-copy", X, [X], {}, RO))
+            for o, lab in ((TTspec(rng, shape, cs), "ttensor"), (Tspec(rng, shape), "tensor"), (Sspec(rng, shape), "sptensor"),
+                           (Kspec(rng, shape), "ktensor")):
+                out.append(case(C, "innerprod", f"{cl}/{lab}", X, [o], {}, RO))
+            for p in (perms_for(rng, shape, tier)[:3] if tier == "quick" else perms_for(rng, shape, tier)):
+                out.append(case(C, "permute", f"{cl}/{'id' if p == sorted(p) else 'perm'}", X, [iarr(p)], {}, P("permute", perm=p)))
+            # ttv: vectors aligned with the (sorted) multiplied modes
+            TV = {"cls": C, "method": "ttv", "params": {"k": ck, "n": n}, "auto": "tt_ttv"}
+
+            def ttv_model(ds):
+                m = dict(TV)
+                m["params"] = dict(TV["params"], dims=list(ds), perm=[b0 + i for i in range(len(ds))])
+                return m
+
+            out.append(case(C, "ttv", f"{cl}/one", X, [vec(rng, shape[0]), py(0)], {}, ttv_model([0])))
+            out.append(case(C, "ttv", f"{cl}/all", X, [lst([vec(rng, d) for d in shape])], {}, ttv_model(range(n))))
+            if n >= 2:
+                out.append(case(C, "ttv", f"{cl}/exclude", X, [lst([vec(rng, d) for d in shape[1:]])], {"exclude_dims": py(0)},
+                                ttv_model(range(1, n))))
+            for ds in mode_subsets(rng, n, tier):
+                out.append(case(C, "ttv", f"{cl}/dims{len(ds)}", X, [lst([vec(rng, shape[k]) for k in ds]), iarr(ds)], {}, ttv_model(ds)))
+            for k in range(n):
+                out.append(case(C, "ttm", f"{cl}/mode{k}", X, [mat(rng, 2, shape[k]), py(k)], {}, P("ttm", dims=[k], perm=[b0])))
+                out.append(case(C, "mttkrp", f"{cl}/list/{k}", X, [lst([mat(rng, d, 2) for d in shape]), py(k)], {}, P("mttkrp", dims=[k])))
+            out.append(case(C, "ttm", f"{cl}/list", X, [lst([mat(rng, 2, d) for d in shape])], {},
+                            P("ttm", dims=list(range(n)), perm=[b0 + i for i in range(n)])))
+            out.append(case(C, "ttm", f"{cl}/list-C", X, [lst([mat(rng, 2, d, "C") for d in shape])], {},
+                            P("ttm", dims=list(range(n)), perm=[b0 + i for i in range(n)])))
+            if n >= 2:
+                out.append(case(C, "ttm", f"{cl}/transpose", X, [mat(rng, shape[1], 2)], {"dims": py(1), "transpose": py(True)},
+                                P("ttm", dims=[1], perm=[b0])))
+                out.append(case(C, "ttm", f"{cl}/exclude", X, [lst([mat(rng, 2, d) for d in shape[1:]])], {"exclude_dims": py(0)},
+                                P("ttm", dims=list(range(1, n)), perm=[b0 + i for i in range(n - 1)])))
+                out.append(case(C, "mttkrp", f"{cl}/ktensor", X, [Kspec(rng, shape), py(1)], {}, P("mttkrp", dims=[1])))
+            out.append(case(C, "nvecs", cl, X, [py(0), py(1)]))
+            out.append(case(C, "nvecs", f"{cl}/dense", X, [py(n - 1), py(shape[n - 1])]))
+            out.append(case(C, "reconstruct", f"{cl}/samples", X, [iarr([0, 1]), py(0)], {},
+                            P("reconstruct", dims=[1] + [0] * (n - 1), perm=[b0] + [0] * (n - 1))))
+            out.append(case(C, "reconstruct", f"{cl}/matrix", X, [lst([mat(rng, 2, shape[0])]), py([0])], {},
+                            P("reconstruct", dims=[1] + [0] * (n - 1), perm=[b0] + [0] * (n - 1))))
+            out.append(case(C, "reconstruct", f"{cl}/all-modes", X, [lst([iarr([0]) for _ in shape])], {},
+                            P("reconstruct", dims=[1] * n, perm=[b0 + i for i in range(n)])))
+            out.append(case(C, "reconstruct", f"{cl}/last-mode", X, [iarr([0]), py(n - 1)], {},
+                            P("reconstruct", dims=[0] * (n - 1) + [1], perm=[0] * (n - 1) + [b0])))
     return out
+
+
+def kind_of(spec):
+    """Part kinds of the heap model: 0 dense, 1 sparse, 2 Kruskal, 3 Tucker (dense core), 4 Tucker (sparse core)."""
+    t = spec["t"]
+    if t == "ttensor":
+        return 3 if spec["core"]["t"] == "tensor" else 4
+    return {"tensor": 0, "sptensor": 1, "ktensor": 2}[t]
 
 
 def sumtensor_cases(rng, tier):
+    """Sum tensors over part lists of every kind and order (one part, repeated kinds, a Tucker part with a
+    sparse core), copy flag of the constructor, every operand kind for + and innerprod, every mode
+    subset for ttv, every mode for mttkrp."""
     out = []
     C = "sumtensor"
-    for shape in ([2, 3, 4], [3, 2]):
-        parts = [Tspec(rng, shape), Sspec(rng, shape), Kspec(rng, shape), TTspec(rng, shape)]
+    configs = [([2, 3, 4], "TSKU"), ([3, 2], "TSKU"), ([3, 2], "K"), ([2, 3], "ST"), ([3, 1, 2], "VTK"), ([2, 2], "TT"),
+               ([2, 3], "T"), ([1, 3], "U")]
+    if tier == "thorough":
+        configs += [([2, 3, 2], "UVSKT"), ([4], "KT"), ([2, 1, 2], "S"), ([3, 2], "VU"), ([2, 2, 2], "KKT")]
+
+    def mk(ch, shape):
+        cs = [min(2, d) for d in shape]
+        return {"T": lambda: Tspec(rng, shape), "S": lambda: Sspec(rng, shape), "K": lambda: Kspec(rng, shape),
+                "U": lambda: TTspec(rng, shape, cs), "V": lambda: TTsp(rng, shape, cs)}[ch]()
+
+    for shape, letters in configs:
+        parts = [mk(ch, shape) for ch in letters]
+        kinds = [kind_of(q) for q in parts]
         n = len(shape)
-        pn = ["p0.data", "p1.subs", "p1.vals", "p2.weights"] + [f"p2.f{i}" for i in range(n)] + ["p3.core.data"] + \
-             [f"p3.f{i}" for i in range(n)]
-        CA = M("any", "copy_all", m=len(pn), flag=",".join(pn))
-        AA = M("any", "alias_all", m=len(pn), flag=",".join(pn))
-        out.append(case(C, "__init__", "copy", None, [lst(parts)], {}, CA, "ctor"))
-        out.append(case(C, "__init__", "copy=False", None, [lst(parts)], {"copy": py(False)}, AA, "ctor"))
+        P = lambda meth, **kw: M(C, meth, n=n, kinds=kw.pop("kinds", kinds), **kw)  # noqa: E731
+        lb = letters
+        pn = []
+        for q in parts:
+            pn += {0: 1, 1: 2, 2: n + 1, 3: n + 1, 4: n + 2}[kind_of(q)] * [""]
+        AA = {"cls": "any", "method": "alias_all", "params": {}, "auto": "operands"}
+        out.append(case(C, "__init__", f"{lb}/copy", None, [lst(parts)], {}, P("copy"), "ctor"))
+        out.append(case(C, "__init__", f"{lb}/copy=True", None, [lst(parts)], {"copy": py(True)}, P("copy"), "ctor"))
+        out.append(case(C, "__init__", f"{lb}/copy=False", None, [lst(parts)], {"copy": py(False)}, AA, "ctor"))
         X = {"t": "sumtensor", "parts": parts}
         for m in ("copy", "__pos__"):
-            out.append(case(C, m, "", X, [], {}, CA))
-        out.append(case(C, "__deepcopy__", "", X, [py({})], {}, CA))
-        for m in ("full", "to_tensor", "double", "norm", "__neg__", "__repr__", "__str__"):
-            out.append(case(C, m, "", X))
+            out.append(case(C, m, lb, X, [], {}, P("copy")))
+        out.append(case(C, "__deepcopy__", lb, X, [py({})], {}, P("copy")))
+        out.append(case(C, "__neg__", lb, X, [], {}, P("__neg__")))
+        for m in ("full", "to_tensor"):
+            out.append(case(C, m, lb, X, [], {}, P("full")))
+        out.append(case(C, "double", lb, X, [], {}, P("double")))
+        for m in ("norm", "__repr__", "__str__"):
+            out.append(case(C, m, lb, X, [], {}, RO))
         for m in ("ndims", "order", "shape"):
-            out.append(case(C, m, "", X, kind="prop"))
-        for o, lab in ((Tspec(rng, shape), "tensor"), (Sspec(rng, shape), "sptensor"), (Kspec(rng, shape), "ktensor"),
-                       (TTspec(rng, shape), "ttensor")):
-            out.append(case(C, "__add__", lab, X, [o]))
-            out.append(case(C, "__radd__", lab, X, [o]))
-            out.append(case(C, "innerprod", lab, X, [o]))
-        out.append(case(C, "__add__", "list", X, [lst([Tspec(rng, shape), Kspec(rng, shape)])]))
-        out.append(case(C, "mttkrp", "list", X, [lst([mat(rng, d, 2) for d in shape]), py(0)]))
-        out.append(case(C, "mttkrp", "ktensor", X, [Kspec(rng, shape), py(1)]))
-        out.append(case(C, "ttv", "one", X, [vec(rng, shape[0]), py(0)]))
-        out.append(case(C, "ttv", "all", X, [lst([vec(rng, d) for d in shape])]))
+            out.append(case(C, m, lb, X, kind="prop"))
+        for ch in "TSKUV":
+            o = mk(ch, shape)
+            out.append(case(C, "__add__", f"{lb}+{ch}", X, [o], {}, P("copy", kinds=kinds + [kind_of(o)])))
+            out.append(case(C, "__radd__", f"{ch}+{lb}", X, [o], {}, P("copy", kinds=kinds + [kind_of(o)])))
+            out.append(case(C, "innerprod", f"{lb}/{ch}", X, [o], {}, P("innerprod")))
+        two = [mk("T", shape), mk("K", shape)]
+        out.append(case(C, "__add__", f"{lb}+list", X, [lst(two)], {}, P("copy", kinds=kinds + [0, 2])))
+        out.append(case(C, "__add__", f"{lb}+empty-list", X, [lst([])], {}, P("copy")))
+        for k in range(n):
+            out.append(case(C, "mttkrp", f"{lb}/list/{k}", X, [lst([mat(rng, d, 2) for d in shape]), py(k)], {}, P("mttkrp")))
+        if n >= 2:
+            out.append(case(C, "mttkrp", f"{lb}/ktensor", X, [Kspec(rng, shape), py(1)], {}, P("mttkrp")))
+        TV = {"cls": C, "method": "ttv", "params": {"n": n, "kinds": kinds}, "auto": "sum_ttv"}
+
+        def ttv_model(ds):
+            m = dict(TV)
+            m["params"] = dict(TV["params"], dims=list(ds))
+            return m
+
+        out.append(case(C, "ttv", f"{lb}/one", X, [vec(rng, shape[0]), py(0)], {}, ttv_model([0])))
+        out.append(case(C, "ttv", f"{lb}/all", X, [lst([vec(rng, d) for d in shape])], {}, ttv_model(range(n))))
+        if n >= 2:
+            for ds in mode_subsets(rng, n, tier):
+                out.append(case(C, "ttv", f"{lb}/dims{len(ds)}", X, [lst([vec(rng, shape[k]) for k in ds]), iarr(ds)], {},
+                                ttv_model(ds)))
+            out.append(case(C, "ttv", f"{lb}/exclude", X, [lst([vec(rng, d) for d in shape[1:]])], {"exclude_dims": py(0)},
+                            ttv_model(range(1, n))))
+    out.append(case(C, "__init__", "no-parts", None, [], {}, M(C, "copy", n=0, kinds=[]), "ctor"))
     return out
 
 
-MAT_SHAPES = [[2, 3, 4], [3, 2], [3, 1, 4], [1, 5], [2, 3, 1, 2], [4]]
+MAT_SHAPES = [[2, 3, 4], [3, 2], [3, 1, 4], [1, 5], [2, 3, 1, 2], [4], [1, 1, 1]]
+
+RO = {"cls": "any", "method": "reads_only", "params": {}}
+
+
+def _mat_data(rng, r, c, dtype):
+    if dtype == "b":
+        return [rng.randint(0, 1) for _ in range(r * c)]
+    return gen.dense_data(rng, [r, c])
 
 
 def tenmat_cases(rng, tier):
+    """Matricized dense tensors: every mode split (incl. 1-row / 1-column / all-singleton matrices,
+    splits that only relocate singleton modes), real / integer / boolean / complex data, F / C /
+    strided layouts of the constructor's data, copy flags."""
     out = []
     C = "tenmat"
     shapes = MAT_SHAPES if tier == "quick" else MAT_SHAPES + [gen.shape(rng, 1, 4, 3) for _ in range(8)]
-    for shape in shapes:
+    dts = ["f", "i", "b", "c"]
+    for si, shape in enumerate(shapes):
         N = len(shape)
-        for rd, cd in mode_splits(rng, shape, tier):
+        for ki, (rd, cd) in enumerate(mode_splits(rng, shape, tier)):
             order = rd + cd
             lay = "keeps-layout" if keeps_layout(shape, order) else "relayout"
             r = gen.numel([shape[k] for k in rd])
             c = gen.numel([shape[k] for k in cd])
-            data = gen.dense_data(rng, [r, c])
-            for lo in ("F", "C"):
-                for copy in (True, False):
-                    out.append(case(C, "__init__", f"{lay}/{lo}/copy={copy}", None,
-                                    [arr([r, c], data, "f", lo), iarr(rd), iarr(cd), py(shape)],
-                                    {"copy": py(copy)}, M(C, "__init__", copy=copy, shape=[r, c]), "ctor"))
+            lay += "/1row" if r == 1 else ("/1col" if c == 1 else "")
+            # constructor: every layout x copy flag; the dtype rotates (all four for 1-row / 1-column)
+            dsel = dts if (r == 1 or c == 1 or tier == "thorough") else [dts[(si + ki) % 4], "f"]
+            for dt in dict.fromkeys(dsel):
+                data = _mat_data(rng, r, c, dt)
+                for lo in ("F", "C", "S"):
+                    if lo == "S" and dt not in ("f", dsel[0]):
+                        continue
+                    for copy in (True, False):
+                        out.append(case(C, "__init__", f"{lay}/{dt}/{lo}/copy={copy}", None,
+                                        [arr([r, c], data, dt, lo), iarr(rd), iarr(cd), py(shape)],
+                                        {"copy": py(copy)}, M(C, "__init__", copy=copy, shape=[r, c]), "ctor"))
             X = {"t": "tenmat", "tensor": Tspec(rng, shape), "rdims": rd, "cdims": cd}
-            CA = M("any", "copy_all", m=3, flag="data,rindices,cindices")
             for copy in (True, False):
                 out.append(case(C, "to_tensor", f"{lay}/copy={copy}", X, [], {"copy": py(copy)},
                                 M(C, "to_tensor", copy=copy, dims=[shape[k] for k in order],
@@ -1112,31 +1243,49 @@ def tenmat_cases(rng, tier):
             out.append(case(C, "to_tensor", f"{lay}/default", X, [], {},
                             M(C, "to_tensor", copy=True, dims=[shape[k] for k in order],
                               perm=[order.index(k) for k in range(N)], shape=shape)))
-            for m in ("copy", "__pos__"):
-                out.append(case(C, m, lay, X, [], {}, CA))
-            out.append(case(C, "ctranspose", lay, X))
-            out.append(case(C, "double", lay, X))
-            out.append(case(C, "__neg__", lay, X))
+            # receivers of every dtype (built by the constructor itself from F-ordered data)
+            for dt in dict.fromkeys(dsel):
+                XR = {"t": "tenmat_raw", "data": arr([r, c], _mat_data(rng, r, c, dt), dt, "F"),
+                      "rdims": rd, "cdims": cd, "tshape": shape}
+                lb = f"{lay}/{dt}"
+                for m in ("copy", "__pos__"):
+                    out.append(case(C, m, lb, XR, [], {}, M(C, "copy")))
+                out.append(case(C, "__deepcopy__", lb, XR, [py({})], {}, M(C, "copy")))
+                out.append(case(C, "ctranspose", lb, XR, [], {},
+                                M(C, "ctranspose", flag="complex" if dt == "c" else "", shape=[r, c])))
+                out.append(case(C, "double", lb, XR, [], {}, M(C, "double")))
+                out.append(case(C, "__neg__", lb, XR, [], {}, M(C, "arith", shape=[r, c])))
+                out.append(case(C, "to_tensor", f"{lb}/copy=False", XR, [], {"copy": py(False)},
+                                M(C, "to_tensor", copy=False, dims=[shape[k] for k in order],
+                                  perm=[order.index(k) for k in range(N)], shape=shape)))
+                YR = {"t": "tenmat_raw", "data": arr([r, c], _mat_data(rng, r, c, dt), dt, "F"),
+                      "rdims": rd, "cdims": cd, "tshape": shape}
+                for m in ("__add__", "__sub__", "__radd__", "__rsub__"):
+                    out.append(case(C, m, f"{lb}/tenmat", XR, [YR], {}, M(C, "arith", shape=[r, c])))
+                    out.append(case(C, m, f"{lb}/scalar", XR, [py(2.0)], {}, M(C, "arith", shape=[r, c])))
+                for m in ("__mul__", "__rmul__"):
+                    out.append(case(C, m, f"{lb}/scalar", XR, [py(2.0)], {}, M(C, "arith", shape=[r, c])))
+                # product with the matricization that swaps rows and columns
+                ZR = {"t": "tenmat_raw", "data": arr([c, r], _mat_data(rng, c, r, dt), dt, "F"),
+                      "rdims": cd, "cdims": rd, "tshape": shape}
+                out.append(case(C, "__mul__", f"{lb}/tenmat", XR, [ZR], {},
+                                M(C, "matmul", flag="scalar" if not rd else "", shape=[r, r])))
+                out.append(case(C, "isequal", lb, XR, [YR], {}, RO))
+                out.append(case(C, "norm", lb, XR, [], {}, RO))
         # one representative split per shape for the remaining operations
         rd = [0]
         cd = list(range(1, N))
         r, c = shape[0], gen.numel(shape) // shape[0]
         X = {"t": "tenmat", "tensor": Tspec(rng, shape), "rdims": rd}
-        CA = M("any", "copy_all", m=3, flag="data,rindices,cindices")
         out.append(case(C, "__init__", "cdims-only", None, [arr([r, c], gen.dense_data(rng, [r, c]), "f", "F")],
                         {"cdims": iarr(cd), "tshape": py(shape)}, M(C, "__init__", copy=True, shape=[r, c]), "ctor"))
-        out.append(case(C, "__deepcopy__", "", X, [py({})], {}, CA))
-        for m in ("norm", "__repr__", "__str__"):
-            out.append(case(C, m, "", X))
+        out.append(case(C, "__init__", "rdims-only/copy=False", None, [arr([r, c], gen.dense_data(rng, [r, c]), "f", "F")],
+                        {"rdims": iarr(rd), "tshape": py(shape), "copy": py(False)},
+                        M(C, "__init__", copy=False, shape=[r, c]), "ctor"))
+        for m in ("__repr__", "__str__"):
+            out.append(case(C, m, "", X, [], {}, RO))
         for m in ("ndims", "order", "shape"):
             out.append(case(C, m, "", X, kind="prop"))
-        Y = {"t": "tenmat", "tensor": Tspec(rng, shape), "rdims": rd}
-        for m in ("__add__", "__sub__", "__radd__", "__rsub__", "isequal"):
-            out.append(case(C, m, "tenmat", X, [Y]))
-        for m in ("__add__", "__sub__", "__radd__", "__rsub__", "__mul__", "__rmul__"):
-            out.append(case(C, m, "scalar", X, [py(2.0)]))
-        if N >= 2:
-            out.append(case(C, "__mul__", "tenmat", X, [{"t": "tenmat", "tensor": Tspec(rng, shape), "rdims": cd}]))
         out.append(case(C, "__getitem__", "slice", X, [tup([sl(0, 1), sl(None, None)])], {},
                         M(C, "__getitem__", flag="slice", dims=[0, 0, 1])))
         out.append(case(C, "__getitem__", "slice-all", X, [tup([sl(None, None), sl(None, None)])], {},
@@ -1145,58 +1294,95 @@ def tenmat_cases(rng, tier):
         out.append(case(C, "__getitem__", "fancy", X, [tup([iarr([0]), iarr([0])])], {}, M(C, "__getitem__", flag="")))
         out.append(case(C, "__setitem__", "scalar", X, [tup([py(0), py(0)]), py(5.0)], {}, M(C, "__setitem__"), "inplace"))
         out.append(case(C, "__setitem__", "row", X, [tup([py(0), sl(None, None)]), farr([1] * c)], {}, M(C, "__setitem__"), "inplace"))
-    out.append(case(C, "__init__", "1d", None, [farr([1, 2, 3, 4, 5, 6]), iarr([0]), iarr([1]), py([1, 6])], {},
-                    M(C, "__init__", copy=True, shape=[1, 6]), "ctor"))
-    out.append(case(C, "__init__", "1d/copy=False", None, [farr([1, 2, 3, 4, 5, 6]), iarr([0]), iarr([1]), py([1, 6])],
-                    {"copy": py(False)}, M(C, "__init__", copy=False, shape=[1, 6]), "ctor"))
+    for dt in dts:
+        vals = [1, 0, 1, 1, 0, 1] if dt == "b" else [1, 2, 3, 4, 5, 6]
+        for copy in (True, False):
+            out.append(case(C, "__init__", f"1d/{dt}/copy={copy}", None,
+                            [arr([6], vals, dt), iarr([0]), iarr([1]), py([1, 6])],
+                            {"copy": py(copy)}, M(C, "__init__", copy=copy, shape=[1, 6]), "ctor"))
+    out.append(case(C, "__init__", "empty", None, [], {}, M(C, "__init__", flag="empty"), "ctor"))
+    out.append(case(C, "__init__", "empty-array", None, [arr([0], [], "f")], {}, M(C, "__init__", flag="empty"), "ctor"))
     return out
 
 
 def sptenmat_cases(rng, tier):
+    """Matricized sparse tensors: every mode split (1-row / 1-column / all-singleton included), stored
+    orders sorted / reversed / with duplicates for the constructor, copy flags, with and without
+    entries, dense and scipy-sparse sources for from_array."""
     out = []
     C = "sptenmat"
     shapes = MAT_SHAPES if tier == "quick" else MAT_SHAPES + [gen.shape(rng, 1, 4, 3) for _ in range(8)]
+    CP = M(C, "copy")
     for shape in shapes:
         N = len(shape)
         for rd, cd in mode_splits(rng, shape, tier):
             lay = "keeps-layout" if keeps_layout(shape, rd + cd) else "relayout"
             r = gen.numel([shape[k] for k in rd])
             c = gen.numel([shape[k] for k in cd])
+            lay += "/1row" if r == 1 else ("/1col" if c == 1 else "")
             cells = [[i, j] for j in range(c) for i in range(r)]
             pick = rng.sample(cells, min(3, len(cells)))
-            pick.sort(key=lambda q: (q[0], q[1]))
-            vals = [rng.randint(1, 5) for _ in pick]
+            for so in ("sorted", "reversed", "dup"):
+                pk = sorted(pick, key=lambda q: (q[0], q[1]))
+                if so == "reversed":
+                    pk = pk[::-1]
+                elif so == "dup":
+                    pk = pk + pk[:1]
+                vals = [rng.choice([-3, -2, -1, 1, 2, 3, 4]) for _ in pk]
+                if so == "dup" and rng.random() < 0.5:
+                    vals[-1] = -vals[0]  # the duplicates cancel: the entry disappears
+                for copy in (True, False):
+                    for dt, slay in (("f", "C"), ("i", "F"), ("c", "C"), ("b", "F")):
+                        if dt != "f" and so != "sorted":
+                            continue
+                        vv = [1] * len(vals) if dt == "b" else vals
+                        out.append(case(C, "__init__", f"{lay}/{so}/{dt}/copy={copy}", None,
+                                        [rows(pk, "i", slay), arr([len(pk), 1], vv, dt), iarr(rd), iarr(cd), py(shape)],
+                                        {"copy": py(copy)}, M(C, "__init__", copy=copy), "ctor"))
             for copy in (True, False):
-                out.append(case(C, "__init__", f"{lay}/copy={copy}", None,
-                                [rows(pick), arr([len(pick), 1], vals, "f"), iarr(rd), iarr(cd), py(shape)],
+                out.append(case(C, "__init__", f"{lay}/empty-arrays/copy={copy}", None,
+                                [arr([0, 2], [], "i", "C"), arr([0, 1], [], "f"), iarr(rd), iarr(cd), py(shape)],
                                 {"copy": py(copy)}, M(C, "__init__", copy=copy), "ctor"))
             for klass in ("some", "empty"):
                 X = {"t": "sptenmat", "sptensor": Sspec(rng, shape, klass), "rdims": rd, "cdims": cd}
-                for m in ("full", "to_sptensor", "__neg__"):
-                    out.append(case(C, m, f"{klass}/{lay}", X))
+                e = "empty" if klass == "empty" else ""
+                lb = f"{klass}/{lay}"
+                out.append(case(C, "full", lb, X, [], {}, M(C, "full", flag=e, shape=[r, c])))
+                out.append(case(C, "to_sptensor", lb, X, [], {}, M(C, "to_sptensor", flag=e, dims=[len(rd), len(cd)])))
+                out.append(case(C, "__neg__", lb, X, [], {}, M(C, "__neg__")))
+                out.append(case(C, "copy", lb, X, [], {}, CP))
                 if klass == "some":
-                    out.append(case(C, "copy", f"{klass}/{lay}", X, [], {}, M("any", "copy_all", m=4, flag="subs,vals,rdims,cdims")))
-                    out.append(case(C, "double", f"{klass}/{lay}", X, [], {}, M(C, "double")))
+                    out.append(case(C, "double", lb, X, [], {}, M(C, "double")))
         rd = [0]
         cd = list(range(1, N))
         r, c = shape[0], gen.numel(shape) // shape[0]
-        out.append(case(C, "__init__", "empty", None, [], {"rdims": iarr(rd), "cdims": iarr(cd), "tshape": py(shape)}, COMP, "ctor"))
-        dense = [(i * 7 + 3) % 5 if (i % 2) else 0 for i in range(r * c)]
-        out.append(case(C, "from_array", "ndarray", None, [arr([r, c], dense), iarr(rd), iarr(cd), py(shape)], {}, COMP, "static"))
+        for copy in (True, False):
+            out.append(case(C, "__init__", f"no-subs/copy={copy}", None, [],
+                            {"rdims": iarr(rd), "cdims": iarr(cd), "tshape": py(shape), "copy": py(copy)},
+                            M(C, "__init__", flag="nosubs", copy=copy), "ctor"))
+        out.append(case(C, "__init__", "rdims-only", None, [], {"rdims": iarr(rd), "tshape": py(shape)},
+                        M(C, "__init__", flag="nosubs", copy=True), "ctor"))
+        for zero in (False, True):
+            dense = [0] * (r * c) if zero else [(i * 7 + 3) % 5 if (i % 2) else 0 for i in range(r * c)]
+            nnz = sum(1 for v in dense if v)
+            for lo in ("F", "C"):
+                out.append(case(C, "from_array", f"ndarray/{lo}/{'zero' if zero else 'some'}", None,
+                                [arr([r, c], dense, "f", lo), iarr(rd), iarr(cd), py(shape)], {},
+                                M(C, "from_array", k=nnz), "static"))
+            out.append(case(C, "from_array", f"coo/{'zero' if zero else 'some'}", None,
+                            [{"t": "coo", "dense": arr([r, c], dense, "f", "F")}, iarr(rd), iarr(cd), py(shape)], {},
+                            M(C, "from_array", k=nnz, flag="coo"), "static"))
         for klass in ("some", "empty"):
             X = {"t": "sptenmat", "sptensor": Sspec(rng, shape, klass), "rdims": rd}
-            CA = M("any", "copy_all", m=4, flag="subs,vals,rdims,cdims")
-            if klass == "some":
-                out.append(case(C, "__pos__", klass, X, [], {}, CA))
-                out.append(case(C, "__deepcopy__", klass, X, [py({})], {}, CA))
-            else:
-                for m in ("copy", "__pos__", "double"):
-                    out.append(case(C, m, klass, X))
+            out.append(case(C, "__pos__", klass, X, [], {}, CP))
+            out.append(case(C, "__deepcopy__", klass, X, [py({})], {}, CP))
+            if klass == "empty":
+                out.append(case(C, "double", klass, X))
             for m in ("norm", "__repr__", "__str__"):
-                out.append(case(C, m, klass, X))
+                out.append(case(C, m, klass, X, [], {}, RO))
             for m in ("nnz", "order", "shape"):
                 out.append(case(C, m, klass, X, kind="prop"))
-            out.append(case(C, "isequal", klass, X, [{"t": "sptenmat", "sptensor": Sspec(rng, shape), "rdims": rd}]))
+            out.append(case(C, "isequal", klass, X, [{"t": "sptenmat", "sptensor": Sspec(rng, shape), "rdims": rd}], {}, RO))
         X = {"t": "sptenmat", "sptensor": Sspec(rng, shape, "some"), "rdims": rd}
         full_ = len(X["sptensor"]["subs"]) == gen.numel(shape)
         out.append(case(C, "__setitem__", "new", X, [tup([sl(None, None), sl(None, None)]), py(2.0)], {},
@@ -1204,6 +1390,20 @@ def sptenmat_cases(rng, tier):
         Xall = {"t": "sptenmat", "sptensor": Sspec(rng, shape, "all"), "rdims": rd}
         out.append(case(C, "__setitem__", "change", Xall, [tup([py(0), py(0)]), py(9.0)], {},
                         M(C, "__setitem__", flag="change"), "inplace"))
+        # value arrays (operands that must stay untouched and unshared): 1-d, column, F / C layouts
+        out.append(case(C, "__setitem__", "change/array-1d", Xall, [tup([py(0), sl(None, None)]), farr([3] * c)], {},
+                        M(C, "__setitem__", flag="change"), "inplace"))
+        out.append(case(C, "__setitem__", "change/array-col", Xall,
+                        [tup([sl(None, None), py(0)]), arr([r, 1], [4] * r, "f", "C")], {},
+                        M(C, "__setitem__", flag="change"), "inplace"))
+        out.append(case(C, "__setitem__", "delete/array", Xall, [tup([py(0), sl(None, None)]), farr([0] * c)], {},
+                        M(C, "__setitem__", flag="rebuild"), "inplace"))
+        Xe = {"t": "sptenmat", "sptensor": Sspec(rng, shape, "empty"), "rdims": rd}
+        out.append(case(C, "__setitem__", "empty-recv/array", Xe, [tup([iarr([0]), iarr([0])]), arr([1, 1], [5], "f")], {},
+                        M(C, "__setitem__", flag="rebuild"), "inplace"))
+        out.append(case(C, "__setitem__", "index-arrays", X, [tup([iarr([0, 0]), iarr([0])]), farr([2, 7])], {},
+                        M(C, "__setitem__", flag="change" if [0] * N in X["sptensor"]["subs"] else "rebuild"), "inplace"))
+    out.append(case(C, "__init__", "none", None, [], {}, M(C, "__init__", flag="none"), "ctor"))
     return out
 
 
@@ -1401,6 +1601,27 @@ def model_request(c, obs):
         names = [n[5:] for n in obs["operands"] if n.startswith("self.")]
         params["flag"] = ",".join(names)
         params["m"] = len(names)
+    elif auto == "operands":
+        # every operand array is handed through under the result's name for it
+        params["m"] = len(obs["operands"])
+        params["flag"] = ",".join(obs["results"])
+    elif auto == "sum_ttv":
+        # data-dependent switches of sumtensor.ttv: a float when every mode is multiplied; per part, is the
+        # result (of a sparse part) / the new core (of a Tucker part with a sparse core) sparse
+        if obs["rtype"] in ("float", "float64", "int"):
+            params["flag"] = "scalar"
+        nparts = len(params["kinds"])
+        params["perm"] = [1 if (f"p{i}.subs" in obs["results"] or f"p{i}.core.subs" in obs["results"]) else 0
+                          for i in range(nparts)]
+    elif auto == "tt_ttv":
+        # the data-dependent switches of ttensor.ttv: a float when every mode is multiplied; the new core of a
+        # sparse core is sparse or dense
+        if obs["rtype"] in ("float", "float64", "int"):
+            params["flag"] = "scalar"
+        elif "core.subs" in obs["results"]:
+            params["flag"] = "sp"
+        else:
+            params["flag"] = ""
     elif auto == "alg_init":
         ini = [i for i, n in enumerate(obs["operands"]) if n.startswith("k.init")]
         ininames = ["1." + obs["operands"][i][len("k.init."):] for i in ini]
@@ -1478,9 +1699,10 @@ class OpsFamily(Family):
     theorems = ("C05_no_visibility", "C05_pure_sound", "C05_fresh_sound", "C05_inplace_only", "C05_nocopy_within",
                 "C05_table_sound", "C05_table_semantics")
 
-    def __init__(self, name, genfn):
+    def __init__(self, name, genfn, extra=()):
         self.name = name
         self.genfn = genfn
+        self.theorems = OpsFamily.theorems + tuple(extra)
 
     def gen(self, rng, tier):
         return self.genfn(rng, tier)
@@ -1673,12 +1895,108 @@ class NumpyPrims(Family):
         return out
 
 
+class NumpyIdioms(Family):
+    """The NumPy idioms the step-level entries are written with, on arrays of every layout, dtype and
+    shape (1-row / 1-column / all-singleton included): the model's program for the idiom against
+    NumPy's result – shape, strides, contiguity flags and whether it shares memory with the source."""
+    name = "numpy_idioms"
+    theorems = ("C05_asF_view_or_copy", "C05_fresh_tenmat_ctranspose", "C05_ctranspose_needs_copy_example")
+
+    IDIOMS = ["copyC", "tmoCopy", "tmoNoCopy", "conjT", "astype", "expand_dims", "matmulF", "fancy", "conjT_tmo"]
+
+    def gen(self, rng, tier):
+        out = []
+        shapes = [[1, 3], [3, 1], [1, 1], [2, 3], [3, 2], [4], [1], [2, 1, 3], [1, 2, 1], [2, 3, 2]]
+        if tier == "thorough":
+            shapes += [gen.shape(rng, 1, 4, 4) for _ in range(40)]
+        for shape in shapes:
+            for lay in ("F", "C", "S"):
+                for dt in ("f", "i", "b", "c"):
+                    for idiom in self.IDIOMS:
+                        if idiom == "matmulF" and (len(shape) != 2 or dt == "b"):
+                            continue
+                        out.append({"shape": shape, "layout": lay, "dtype": dt, "idiom": idiom})
+        return out
+
+    @staticmethod
+    def _run(c, a):
+        """(NumPy result, model program) of an idiom applied to the array a."""
+        idiom = c["idiom"]
+        cplx = c["dtype"] == "c"
+        sh = list(a.shape)
+        if idiom == "copyC":
+            return a.copy(), [["tr", 0], ["copy", 1], ["tr", 2]]
+        if idiom == "tmoCopy":
+            return ttb.pyttb_utils.to_memory_order(a, "F", copy=True), [["tr", 0], ["copy", 1], ["tr", 2], ["asF", 3]]
+        if idiom == "tmoNoCopy":
+            return ttb.pyttb_utils.to_memory_order(a, "F"), [["asF", 0]]
+        if idiom == "conjT":
+            return a.conj().T, [["fresh", sh] if cplx else ["alias", 0], ["tr", 1]]
+        if idiom == "conjT_tmo":  # what ctranspose would hand out without its explicit copy
+            return ttb.pyttb_utils.to_memory_order(a.conj().T, "F"), [["fresh", sh] if cplx else ["alias", 0], ["tr", 1], ["asF", 2]]
+        if idiom == "astype":
+            return a.astype(np.float64 if not cplx else np.complex128), [["copy", 0]]
+        if idiom == "expand_dims":
+            return np.expand_dims(a, axis=1), [["newaxis", 0, 1]]
+        if idiom == "matmulF":
+            return np.matmul(a, a.T, order="F"), [["fresh", [sh[0], sh[0]]]]
+        if idiom == "fancy":
+            idx = np.arange(a.shape[0])[::-1].copy()
+            return a[idx], [["fresh", sh]]
+        raise ValueError(idiom)
+
+    def evaluate(self, cases):
+        impls, reqs = [], []
+        for c in cases:
+            n = gen.numel(c["shape"])
+            vals = [i % 2 for i in range(n)] if c["dtype"] == "b" else list(range(1, n + 1))
+            base = build(arr(c["shape"], vals, c["dtype"], c["layout"]))
+            with warnings.catch_warnings():
+                warnings.simplefilter("ignore")
+                res, prog = self._run(c, base)
+            impls.append((base, res))
+            reqs.append({"op": "c05_prim", "operands": [descr(base)], "prog": prog})
+        replies = drive(reqs)
+        out = []
+        for c, (base, a), rep in zip(cases, impls, replies):
+            m = rep["regs"][-1]
+            tags = [f"idiom:{c['idiom']}", f"layout:{c['layout']}", f"dtype:{c['dtype']}"]
+            bad = None
+            sh = bool(a.size and np.shares_memory(a, base))
+            if list(a.shape) != m["shape"]:
+                bad = f"shape {list(a.shape)} vs model {m['shape']}"
+            elif sh != (m["shares"] == [0]):
+                bad = f"NumPy {'shares' if sh else 'copies'}, model says {m['shares']}"
+            elif c["idiom"] in ("fancy", "astype") or (c["dtype"] == "c" and c["idiom"] in ("conjT", "conjT_tmo")):
+                pass  # a computed array (it keeps the source's layout; the model gives it F order): only freshness matters
+            elif a.size and (bool(a.flags.f_contiguous) != m["isF"] or bool(a.flags.c_contiguous) != m["isC"]):
+                bad = f"contiguity F={a.flags.f_contiguous} C={a.flags.c_contiguous} vs model {m['isF']}/{m['isC']}"
+            elif a.size:
+                d = descr(a)
+                for ext, s1, s2 in zip(d["shape"], d["strides"], m["strides"]):
+                    if ext > 1 and s1 != s2:
+                        bad = f"strides {d['strides']} vs model {m['strides']}"
+            tags.append(f"{c['idiom']}:{'view' if sh else 'fresh'}")
+            if bad:
+                out.append(Verdict("corr", f"NumPy differs from the model's idiom {c['idiom']} on {c['shape']}/{c['layout']}/"
+                                           f"{c['dtype']}: " + bad, None, rep, None, tags))
+            else:
+                out.append(Verdict("ok", "", None, rep, None, tags, True))
+        return out
+
+
 OPS = [OpsFamily("ops_tensor", tensor_cases), OpsFamily("ops_sptensor", sptensor_cases),
-       OpsFamily("ops_ktensor", ktensor_cases), OpsFamily("ops_ttensor", ttensor_cases),
-       OpsFamily("ops_sumtensor", sumtensor_cases), OpsFamily("ops_tenmat", tenmat_cases),
-       OpsFamily("ops_sptenmat", sptenmat_cases), OpsFamily("ops_utils", utils_cases),
+       OpsFamily("ops_ktensor", ktensor_cases, ("C05_fresh_ktensor_ops", "C05_fresh_ktensor_more", "C05_inplace_only_ktensor")),
+       OpsFamily("ops_ttensor", ttensor_cases, ("C05_static_compositional", "C05_call_pureFresh", "C05_fresh_ttensor_ops",
+                                                "C05_fresh_ttensor_products", "C05_fresh_ttensor_permute_reconstruct")),
+       OpsFamily("ops_sumtensor", sumtensor_cases, ("C05_static_compositional", "C05_call_pureFresh", "C05_fresh_sumtensor_ops",
+                                                    "C05_fresh_sumtensor_full", "C05_nocopy_sumtensor_ctor")),
+       OpsFamily("ops_tenmat", tenmat_cases, ("C05_fresh_tenmat_ctranspose", "C05_fresh_tenmat_ops", "C05_nocopy_tenmat_ctor",
+                                              "C05_tenmat_to_tensor")),
+       OpsFamily("ops_sptenmat", sptenmat_cases, ("C05_fresh_sptenmat_ops", "C05_nocopy_sptenmat_ctor")),
+       OpsFamily("ops_utils", utils_cases),
        OpsFamily("algorithms", alg_cases)]
 
 
 def families():
-    return OPS + [NumpyPrims(), Inventory()]
+    return OPS + [NumpyPrims(), NumpyIdioms(), Inventory()]
